@@ -28,7 +28,7 @@ typedef struct { uint8_t kind, mandatory; uint16_t cap; } vh_step_t;
 
 /* result kinds */
 enum { VO_INT32, VO_UINT32, VO_INT64, VO_UINT64, VO_FLOAT, VO_DOUBLE, VO_BOOL, VO_TEXT, VO_MNEM, VO_BLOCK,
-       VO_BLOCK_STREAM, VO_INT8, VO_UINT8, VO_INT16, VO_UINT16, VO_ARR_INT32, VO_ARR_DOUBLE, VO_ARR_UINT16, VO__N };
+       VO_BLOCK_STREAM, VO_INT8, VO_UINT8, VO_INT16, VO_UINT16, VO_ARR_INT32, VO_ARR_DOUBLE, VO_ARR_UINT16, VO_BLOCK_DATA_ONLY /* data call without a header: must be refused */, VO__N };
 typedef struct {
     uint8_t kind; int8_t base; uint8_t fmt;
     uint64_t u; double d;
